@@ -6,7 +6,7 @@ from tools.framework import Case, Err
 from harness.midi_common import *
 
 ID = "C18"
-LEAN_MODULES = ["Mingus.Props.C18", "Mingus.Props.C18Par", "Mingus.Props.C18Tracks", "Mingus.Tie.C18"]
+LEAN_MODULES = ["Mingus.Props.C18", "Mingus.Props.C18Par", "Mingus.Props.C18Tracks", "Mingus.Props.C18Tempo", "Mingus.Tie.C18"]
 RULE = ("seeded random scripts of sequencer calls (attach/detach of two recording observers, play/stop of notes and containers, "
         "bars and tracks with chords, rests in every position, tempo-changing containers, channels 0-15, velocities 0-127, "
         "control changes over -2..130 x -2..130 boundary sets, instrument changes) on a recording Sequencer subclass; parallel "
